@@ -163,7 +163,10 @@ Valid(dt, s) ==
     [] dt = "yearMonthDuration" -> ValidYearMonthDuration(s)
     [] dt = "hexBinary" -> ValidHexBinary(s)
 (* forms on which XSD 1.0 and 1.1 differ are not judged *)
-Unjudged(dt, s) == (dt \in {"double", "float"} /\ PlusInf(s)) \/ (dt \in {"date", "dateTime"} /\ YearZero(s))
+WS == {" ", "\t", "\n", "\r"}
+Unjudged(dt, s) == \/ dt \in {"double", "float"} /\ PlusInf(s)
+                   \/ dt \in {"date", "dateTime"} /\ YearZero(s)
+                   \/ Len(s) >= 1 /\ (s[1] \in WS \/ s[Len(s)] \in WS)     \* whiteSpace = collapse may be applied first: not judged
 HasCanon(dt) == dt \in IntFamily \cup {"boolean", "decimal"}
 Canon(dt, s) == CASE dt \in IntFamily -> CanonInt(s) [] dt = "boolean" -> CanonBoolean(s) [] dt = "decimal" -> CanonDecimal(s)
 ===============================================================================
